@@ -306,7 +306,8 @@ MSG_RULE = ("BFS over histories of {pub by 4 users (one with forged sender heade
             "deviation bound of the C14 collision scenarios which contain a publish: no session receives a message twice or out of order. "
             "cluster (C02): every sequence up to length 4 / 5 of {member joins, channel reader joins, reader leaves, publish, publish without "
             "echo} arriving through the real TopicMaster endpoint of the node hosting a channel-enabled group; the copies queued for the "
-            "group's and the channel's multiplexing session are judged")
+            "group's and the channel's multiplexing session are judged. obo (C02): a root session attached on behalf of a member, "
+            "member with / without R x root user itself not subscribed / subscribed with / without R x publisher: served exactly like the member's own sessions")
 for _cid, _what in [("C03", "publish decision = attached AND W in want&given; a rejected publish leaves store, ids, frames and pushes untouched"),
                     ("C04", "history = stored minus hard-deleted minus own soft-deleted within [since,before), newest first, limit; deletion = exact union; deletion log exact"),
                     ("C09", "0<=read<=recv<=last in store, cache, {get desc}, {get sub}; marks never decrease and move only by own pub/note; relay filters"),
@@ -321,7 +322,8 @@ for _cid, _what in [("C03", "publish decision = attached AND W in want&given; a 
                     ([Part("chan", SRV, "^TestVerif%sChan$" % _cid, instr=True, gomaxprocs=16, deadline=(300, 2400))] if _cid in ("C02", "C03", "C09") else []) +
                     ([Part("sys", SRV, "^TestVerifC02Sys$", instr=True, gomaxprocs=16, deadline=(300, 2400)),
                       Part("races", SRV, "^TestVerifC02Races$", instr=True, shards=(8, 16), deadline=(300, 3000)),
-                      Part("cluster", SRV, "^TestVerifC02Cluster$", instr=True, shards=(8, 16), deadline=(300, 2400))] if _cid == "C02" else []) +
+                      Part("cluster", SRV, "^TestVerifC02Cluster$", instr=True, shards=(8, 16), deadline=(300, 2400)),
+                      Part("obo", SRV, "^TestVerifC02Obo$", instr=True)] if _cid == "C02" else []) +
                     ([Part("races", SRV, "^TestVerifC03Races$", instr=True, shards=(8, 16), deadline=(300, 3000)),
                       Part("suspended", SRV, "^TestVerifC03Suspended$", instr=True, gomaxprocs=16, deadline=(300, 2400)),
                       Part("sys", SRV, "^TestVerifC03Sys$", instr=True, gomaxprocs=16, deadline=(300, 2400))] if _cid == "C03" else []) +
